@@ -48,8 +48,11 @@ def flatValidate (w u : Option FMask) (_ : Msg) : Option Err :=
   | _, _ => none
 
 /-- `FieldUpdater.Merge(dst, src)` → `(dst', src')` -/
-def flatMerge (w u : Option FMask) (dst src : Msg) : Msg × Msg :=
-  if w = some [] then (dst, src) else
+def flatMerge (w u r : Option FMask) (dst src : Msg) : Msg × Msg :=
+  -- nothing writable: only the reset mask applies (unless the update mask is the empty non-nil "no changes" mask)
+  if w = some [] then
+    (if u = some [] then dst else (match r with | some rm => pruneM rm dst | none => dst), src)
+  else
   let src1 := filterOpt w src
   match u with
   | some [] => (dst, src1)
@@ -64,7 +67,11 @@ def flatMerge (w u : Option FMask) (dst src : Msg) : Msg × Msg :=
     let dst3 := match u with
       | some um => Msg.tab fun i => if i ∈ um ∧ src2.get i = 0 then 0 else dst2.get i
       | none => dst2
-    (dst3, src2)
+    -- the reset mask is pruned from the result last
+    let dst4 := match r with
+      | some rm => pruneM rm dst3
+      | none => dst3
+    (dst4, src2)
 
 def flat : Funs Msg FMask where
   zero := Msg.zero
